@@ -48,6 +48,16 @@ const prelude = `(set-option :produce-models true)
 (declare-fun bit_shr (Int Int) Int)
 (declare-fun bit_andnot (Int Int) Int)
 (declare-fun fncode (Int) Int)
+(declare-fun fadd (F64 F64) F64)
+(declare-fun fsub (F64 F64) F64)
+(declare-fun fmul (F64 F64) F64)
+(declare-fun fdiv (F64 F64) F64)
+(declare-fun fneg (F64) F64)
+(declare-fun flt (F64 F64) Bool)
+(declare-fun fle (F64 F64) Bool)
+(declare-fun feq (F64 F64) Bool)
+(declare-fun i2f (Int) F64)
+(declare-fun f2i (F64) Int)
 (define-fun nil_iface () Iface (mk_iface 0 0))
 (define-fun nil_slice () Slice (mk_slice 0 0 0 0))
 `
